@@ -306,6 +306,10 @@ def run_impl(prop, jobs_in, tag="impl", max_answers=60, timeout_ms=4000, fresh_e
     for j in jobs_in:
         r = res.get(j["id"])
         nq = len(j["queries"])
+        if r is not None and "crash" in r:
+            # the vrun process died (segmentation fault / abort) while running this job
+            out[j["id"]] = [{p: ("panic", "process crash rc=%s %s" % (r.get("crash"), (r.get("stderr") or "")[-120:])) for p in paths[:1]} for _ in range(nq)]
+            continue
         if r is None or "results" not in r or not isinstance(r["results"], list):
             out[j["id"]] = [{p: ("drop", "no result: %s" % json.dumps(r)[:300]) for p in paths} for _ in range(nq)]
             continue
@@ -793,6 +797,23 @@ def has_tail_elem_share(t):
     return any(has_tail_elem_share(x) for x in t[2])
 
 
+def has_is_barevar(t):
+    """X is Y with a bare variable on the right (segfaults / reads a garbage cell when Y is a permanent variable)"""
+    if t[0] != "cmp":
+        return False
+    if t[1] == "is" and len(t[2]) == 2 and t[2][1][0] == "var":
+        return True
+    return any(has_is_barevar(x) for x in t[2])
+
+
+def panic_key(prog, q, msg):
+    if any(has_is_barevar(t) for t in [q] + [b for _, b in prog]) and ("crash" in msg or "evaluable" in msg):
+        return "is-with-bare-permanent-variable-rhs-reads-garbage-or-segfaults"
+    if uses_char_lists(prog, q):
+        return "one-char-atom-list-compact-string-panic"
+    return "panic:" + msg[:48]
+
+
 def uses_char_lists(prog, q):
     return any(has_char_list(t) for t in [q] + [h for h, _ in prog] + [b for _, b in prog])
 
@@ -807,6 +828,10 @@ def failure_key(prog, q, obs=None):
     ts = [q] + [b for _, b in prog]
     if obs is not None and obs[0] == "ok" and uses_char_lists(prog, q) and any(_non_ascii(a) for a in obs[1]):
         return "one-char-atom-list-compact-string-corruption"
+    if obs is not None and obs[0] == "ok" and obs[2] is not None and any(has_is_barevar(t) for t in ts) and \
+            obs[2][0] == "cmp" and obs[2][1] == "error" and obs[2][2][0][0] == "cmp" and obs[2][2][0][1] == "type_error" and \
+            obs[2][2][0][2][0] == ("atom", "evaluable"):
+        return "is-with-bare-permanent-variable-rhs-reads-garbage-or-segfaults"
     if any(has_cut_in_cond(t) for t in ts):
         return "cut-in-if-then-else-condition-is-not-local"
     if any(has_const_compare(t) for t in ts):
@@ -888,7 +913,7 @@ def run_differential(ctx, feats, nprog, check_fn="check_run", imports=IMPORTS, l
             dist[soft_codes[c]] = dist.get(soft_codes[c], 0) + len(paths)
             if c == 5: continue
         if o[0] == "panic":
-            key = "one-char-atom-list-compact-string-panic" if uses_char_lists(prog, q) else "panic:" + o[1][:48]
+            key = panic_key(prog, q, o[1])
             by_key.setdefault(key, []).append((jid, i, paths, o))
             continue
         if c not in ok_codes and c not in soft_codes:
